@@ -122,6 +122,8 @@ use super::*;
 pub assume_specification<T, F: FnOnce() -> Option<T>>[ Option::<T>::or_else ](o: Option<T>, f: F) -> (r: Option<T>)
     requires o is None ==> f.requires(()),
     ensures o is Some ==> r == o, o is None ==> f.ensures((), r);
+pub assume_specification<T>[ bool::then_some::<T> ](b: bool, t: T) -> (r: Option<T>)
+    ensures r == (if b { Some(t) } else { None::<T> });
 pub assume_specification<T, U, F: FnOnce(T) -> U>[ Option::<T>::map_or ](o: Option<T>, default: U, f: F) -> (r: U)
     requires o is Some ==> f.requires((o->0,)),
     ensures o is None ==> r == default, o is Some ==> f.ensures((o->0,), r);
